@@ -42,8 +42,13 @@ def named_convex():
     octa = [[1.0, 0, 0], [-1, 0, 0], [0, 1, 0], [0, -1, 0], [0, 0, 1], [0, 0, -1]]
     pyramid = [[0.0, 0, 0], [2, 0, 0], [2, 2, 0], [0, 2, 0], [0.5, 0.75, 3]]
     chiral = [[0.0, 0, 0], [3, 0, 0], [1, 2, 0], [0.5, 0.5, 1.5], [2, 1, -1]]
+    # faces with >= 4 vertices whose vertex mean is not their area centroid (trapezoids, irregular n-gons)
+    frustum = [[-1.0, -1, 0], [1, -1, 0], [1, 1, 0], [-1, 1, 0], [-0.5, -0.5, 1.5], [0.5, -0.5, 1.5], [0.5, 0.5, 1.5], [-0.5, 0.5, 1.5]]
+    skew_frustum = [[0.0, 0, 0], [4, 0, 0], [4, 2, 0], [0, 2, 0], [0.5, 0.25, 1], [1.5, 0.25, 1], [1.5, 0.75, 1], [0.5, 0.75, 1]]
+    pent = [(0.0, 0.0), (2.0, -1.0), (4.0, 1.0), (3.0, 3.0), (0.5, 2.5)]
+    irregular_prism5 = [[x, y, 0.0] for x, y in pent] + [[x, y, 1.25] for x, y in pent]
     out = {"cube": cube, "box": box, "tet": tet, "skew_tet": skew_tet, "octahedron": octa, "pyramid": pyramid,
-           "chiral5": chiral}
+           "chiral5": chiral, "frustum": frustum, "skew_frustum": skew_frustum, "irregular_prism5": irregular_prism5}
     for n in (3, 5, 6, 8):
         prism, anti = [], []
         for k in range(n):
